@@ -6,6 +6,7 @@ set -e
 cd "$(dirname "$0")"
 export CARGO_NET_OFFLINE=true
 python3 translator/gen.py /repo coq/Gen
+python3 tools/mkproject.py
 mkdir -p .build
 if (cd coq && coq_makefile -f _CoqProject -o Makefile >/dev/null && timeout 1500 make -j16) >.build/coq-make.log 2>&1; then
   grep -c '^COQC' .build/coq-make.log | sed 's/^/coq files compiled: /' || true
